@@ -784,4 +784,155 @@ def Wiring.server (w : Wiring) (st : Storage) (respTtl : Int) (sg : String) : Op
 def Wiring.setGroup (w : Wiring) (id : String) (g : GroupYaml) : Wiring :=
   { w with groups := w.groups.map fun p => if p.1 == id then (p.1, g) else p }
 
+/-! ## The backend's profile message: `backendpb.DNSProfile.toInternal` (round 5)
+
+What a synchronisation makes of one profile message, as far as this property reads it.  Sub-messages
+may be absent (`nil`): absent parental / rule-list / safe-browsing settings are disabled settings, an
+absent blocking mode is null IP, an absent TTL is zero.  The custom rules are in force iff there are
+any.  A bytes field of the custom-IP mode is empty or an address of 4 / 16 bytes
+(`netip.Addr.UnmarshalBinary`: the ipv4 field does NOT insist on 4 bytes). -/
+
+def nsPerMin : Int := 60 * nsPerSec
+
+/-- `DayRange`: two `google.protobuf.Duration`s (here nanoseconds) since local midnight; `end` names
+the LAST minute of the pause. -/
+structure PbDayRange where
+  startNs : Int
+  endNs : Int
+deriving Repr
+
+/-- `uint16(d.Start.AsDuration().Minutes())`, `uint16(d.End.AsDuration().Minutes() + 1)`, then
+`DayInterval.Validate` (the zero interval is valid; end before start, start after 23:59 or end after
+24:00 reject the whole profile).  For a start above -64000 min, an end from -1 min, both below
+65535 min (beyond, the 16-bit conversion wraps: run on the real code and counted). -/
+def PbDayRange.toIv (d : PbDayRange) : Option DayIv :=
+  let iv : DayIv := { start := (d.startNs / nsPerMin).toNat, stop := (d.endNs / nsPerMin + 1).toNat }
+  if d.startNs ≤ -nsPerMin then Option.none   -- `uint16` of a negative number of minutes: far beyond 23:59
+  else if iv.start == 0 && iv.stop == 0 then some iv
+  else if iv.stop < iv.start || iv.start > 1439 || iv.stop > 1440 then Option.none
+  else some iv
+
+/-- `ScheduleSettings`: the zone (loaded by name) and the days, Sunday first (`toInternal` reorders
+the message's Monday-first fields). -/
+structure PbSchedule where
+  zone : Zone
+  days : List (Option PbDayRange)
+deriving Repr
+
+def pbDays : List (Option PbDayRange) → Option (List (Option DayIv))
+  | [] => some []
+  | Option.none :: ds => (pbDays ds).map fun w => Option.none :: w
+  | some r :: ds =>
+    match r.toIv, pbDays ds with
+    | some iv, some w => some (some iv :: w)
+    | _, _ => Option.none
+
+def PbSchedule.toSched (s : PbSchedule) : Option Sched :=
+  (pbDays s.days).map fun w => { week := w, zone := s.zone }
+
+structure PbParental where
+  enabled : Bool := false
+  blockAdult : Bool := false
+  generalSafeSearch : Bool := false
+  youtubeSafeSearch : Bool := false
+  blockedServices : List Nat := []
+  schedule : Option PbSchedule := Option.none
+deriving Repr
+
+structure PbRuleLists where
+  enabled : Bool := false
+  ids : List Nat := []
+deriving Repr
+
+structure PbSafeBrowsing where
+  enabled : Bool := false
+  blockDangerous : Bool := false
+  blockNrd : Bool := false
+deriving Repr
+
+/-- The `blocking_mode` oneof; a custom-IP field is empty (`none`) or one address `(is IPv4, text)`. -/
+inductive PbMode where
+  | unset
+  | nullIP
+  | nxdomain
+  | refused
+  | customIP (v4 v6 : Option (Bool × String))
+deriving Repr
+
+/-- `blockingModeToInternal` / `BlockingModeCustomIP.toInternal`: no address at all is an error. -/
+def PbMode.toMode : PbMode → Option Mode
+  | .unset => some .nullIP
+  | .nullIP => some .nullIP
+  | .nxdomain => some .nxdomain
+  | .refused => some .refused
+  | .customIP v4 v6 => if v4.isNone && v6.isNone then Option.none else some (.customIP v4.toList v6.toList)
+
+structure PbProfile where
+  filteringEnabled : Bool := false
+  customRules : List Rule := []
+  parental : Option PbParental := Option.none
+  ruleLists : Option PbRuleLists := Option.none
+  safeBrowsing : Option PbSafeBrowsing := Option.none
+  mode : PbMode := .unset
+  /-- `filtered_response_ttl` in nanoseconds -/
+  ttl : Option Int := Option.none
+deriving Repr
+
+def PbProfile.pause (x : PbProfile) : Option (Option Sched) :=
+  match x.parental.bind (·.schedule) with
+  | Option.none => some Option.none
+  | some s => s.toSched.map some
+
+/-- `DNSProfile.toInternal`; `none` = the message is rejected (the profile is not stored).
+`devOn` is the requesting device's own `filtering_enabled`. -/
+def PbProfile.toProfile (x : PbProfile) (devOn : Bool) : Option Profile :=
+  match x.pause, x.mode.toMode with
+  | some sched, some m =>
+    let par := x.parental.getD {}
+    let rl := x.ruleLists.getD {}
+    let sb := x.safeBrowsing.getD {}
+    some
+      { conf :=
+          { isClient := true, customOn := !x.customRules.isEmpty, customRules := x.customRules
+            parentalOn := par.enabled, pause := sched, adultOn := par.blockAdult
+            gssOn := par.generalSafeSearch, yssOn := par.youtubeSafeSearch, svcIds := par.blockedServices
+            ruleListOn := rl.enabled, listIds := rl.ids
+            sbOn := sb.enabled, dangerousOn := sb.blockDangerous, nrdOn := sb.blockNrd }
+        mode := some m, ttl := x.ttl.getD 0
+        filteringOn := x.filteringEnabled, devFilteringOn := devOn }
+  | _, _ => Option.none
+
+/-! ## Special domains: `initial.Middleware.specialDomainHandler` (round 5)
+
+Three switches of the profile (or, for anonymous requesters, of the filtering group) make the initial
+middleware answer address queries for five fixed names itself — before the main middleware, without
+asking the upstream and without looking at the rules or the filtering switches: NXDOMAIN for the
+Apple Private Relay names and the Chrome prefetch name, REFUSED for the Firefox canary name
+(`Constructor.NewRespRCode`: no answer, the constructor's SOA). -/
+
+structure SpecialSw where
+  relay : Bool := false
+  prefetch : Bool := false
+  canary : Bool := false
+deriving Repr, DecidableEq
+
+def relayHosts : List Host :=
+  [["mask", "icloud", "com"], ["mask-h2", "icloud", "com"], ["mask-canary", "icloud", "com"]]
+def prefetchHost : Host := ["dns-tunnel-check", "googlezip", "net"]
+def canaryHost : Host := ["use-application-dns", "net"]
+
+/-- The rcode the initial middleware answers with, if it answers itself. -/
+def specialRcode (sw : SpecialSw) (host : Host) (qt : QType) : Option Nat :=
+  if !(qt == qtA || qt == qtAAAA) then Option.none
+  else if relayHosts.contains host then onlyIf sw.relay 3
+  else if host == prefetchHost then onlyIf sw.prefetch 3
+  else if host == canaryHost then onlyIf sw.canary 5
+  else Option.none
+
+/-- The stack with the initial middleware in front of the main middleware. -/
+def serveSpecial (sw : SpecialSw) (e : Env) (host : Host) (qt : QType) : Msg :=
+  match specialRcode sw host qt with
+  | some rc => { rcode := rc, ans := [], soa := some e.ttl }
+  | Option.none => serve e host qt
+
 end Agd.Filter
